@@ -765,7 +765,7 @@ impl<'a, H: HashAlgorithm> Exec<'a, H> {
     pub fn step(&mut self, i: usize, st: &Step) -> R<()> {
         self.step = i;
         self.disk.begin_step(i);
-        let live_before = if self.scen.checks.intact && matches!(st, Step::Commit { .. } | Step::OvCommit { .. } | Step::Rollback { .. } | Step::CommitPrepared { .. }) {
+        let live_before = if self.scen.checks.intact && matches!(st, Step::Commit { .. } | Step::DeleteAll { .. } | Step::OvCommit { .. } | Step::Rollback { .. } | Step::CommitPrepared { .. }) {
             let img = crate::decoder::decode(&self.dir).map_err(|e| self.v("C16", "decode-failed", e))?;
             Some(crate::decoder::live_set(&img))
         } else { None };
@@ -775,6 +775,12 @@ impl<'a, H: HashAlgorithm> Exec<'a, H> {
     }
 
     fn step_inner(&mut self, i: usize, st: &Step) -> R<()> {
+        if let Step::DeleteAll { keep } = st {
+            let keys: Vec<Key> = self.model.cur.keys().cloned().collect();
+            let n = keys.len().saturating_sub(*keep);
+            let batch = Batch { items: keys.into_iter().take(n).map(|k| (K(k), Act::Write(None))).collect(), ..Default::default() };
+            return self.step_inner(i, &Step::Commit { batch, nonblocking: false });
+        }
         let prop = self.prop.clone();
         match st {
             Step::Commit { batch, nonblocking } => {
@@ -863,6 +869,7 @@ impl<'a, H: HashAlgorithm> Exec<'a, H> {
                     (Err(e), true) => return Err(self.v("C11", "overlay-commit-rejected", format!("in-order overlay commit rejected: {e:#}"))),
                 }
             }
+            Step::DeleteAll { .. } => unreachable!("expanded above"),
             Step::OvDrop { id } => {
                 if let Some(n) = self.overlays.get_mut(id) {
                     if n.status == OvStatus::Live { n.overlay = None; n.status = OvStatus::Dropped; }
